@@ -149,7 +149,7 @@ class C09(Prop):
     title = "Lifecycle: legal transitions only, Hayflick bound, absorbing end states, no hang"
     fixed_prefix = 1
     extractors = ["E3-telomere", "E5-telomere", "py2lean-telomere"]
-    quick_budget = 2500
+    quick_budget = 2000
     thorough_budget = 25000
     quick_deadline_s = 100
     thorough_deadline_s = 800
